@@ -843,3 +843,129 @@ def partial_transfer_retries(fns):
                 depends_on(fn, cnt, lambda y: T.path(y) in (stepped - {pv}), depth=1)
             out.append((fn, xn, pv, cnt, ok))
     return out
+
+
+# Flag constants and the fields they live in.  Each family of constants (a name prefix) belongs to one field of one
+# record; the table is what the tree does at every one of its ~1000 uses (gathered once, read, frozen).  A constant of
+# one family or-ed into, cleared from or tested in the home field of *another* family is a category error: the bit it
+# happens to share a value with means something else there (EXT2_FLAG2_USE_FAKE_TIME is EXT2_FLAG_RW's value).
+FLAG_FAMILIES = {
+    "EXT2_FLAG_": {("struct_ext2_filsys", "flags")},
+    "EXT2_FLAG2_": {("struct_ext2_filsys", "flags2")},
+    "E2F_FLAG_": {("e2fsck_struct", "flags")},
+    "E2F_OPT_": {("e2fsck_struct", "options")},
+    "EXT2_MF_": {("e2fsck_struct", "mount_flags")},
+    "CHANNEL_FLAGS_": {("struct_io_channel", "flags")},
+    "IO_FLAG_": {("unix_private_data", "flags"), ("test_private_data", "flags"), ("undo_private_data", "flags")},
+    "EXT2_FLAGS_": {("ext2_super_block", "s_flags")},
+    "DX_FLAG_": {("dx_dirblock_info", "flags")},
+    "BLOCK_FLAG_": {("block_context", "flags")},
+    "DIRENT_FLAG_": {("dir_context", "flags")},
+    "EXT2_BG_": {("ext2_group_desc", "bg_flags"), ("ext4_group_desc", "bg_flags")},
+}
+
+
+def _flag_family(m):
+    best = None
+    for p in FLAG_FAMILIES:
+        if m.startswith(p) and (best is None or len(p) > len(best)):
+            best = p
+    return best
+
+
+def flag_family_mismatches(fns):
+    """-> (number of uses examined, [(fn, line, macro, (record, field))]) : uses of a family's constant in the home
+    field of another family"""
+    from . import width as _w
+    homes = set()
+    for v in FLAG_FAMILIES.values():
+        homes |= v
+    n_use = 0
+    bad = []
+
+    def look(f, line, lf, expr):
+        nonlocal n_use
+        if lf not in homes:
+            return
+        for m in T.macros(expr or {}):
+            fam = _flag_family(m)
+            if fam is None:
+                continue
+            n_use += 1
+            if lf not in FLAG_FAMILIES[fam]:
+                bad.append((f, line, m, lf))
+    for f in fns:
+        for n in f.events("S"):
+            lf = T.last_field(n.ev["lhs"])
+            if lf and n.ev.get("o") in ("|=", "&=", "=", "^="):
+                look(f, n.line, lf, n.ev.get("rhs"))
+        for line, e in _w._exprs_of(f):
+            for x in T.walk(e):
+                if isinstance(x, dict) and x.get("k") == "b" and x.get("o") == "&":
+                    for side, other in ((x.get("l"), x.get("r")), (x.get("r"), x.get("l"))):
+                        lf = T.last_field(side) if isinstance(side, dict) else None
+                        if lf:
+                            look(f, line, lf, other)
+    return n_use, bad
+
+
+def linear_form(e, fn=None, depth=1):
+    """{name: coefficient, 1: constant} of an expression built from variables, constants, + and - (None otherwise);
+    single-assignment locals are looked through `depth` levels"""
+    e = T.strip(e)
+    if not isinstance(e, dict):
+        return None
+    c = T.const(e)
+    if c is not None:
+        return {1: c}
+    k = e.get("k")
+    if k == "v":
+        if fn is not None and depth > 0:
+            r = resolve_local(fn, e)
+            if r is not e:
+                lf = linear_form(r, fn, depth - 1)
+                if lf is not None:
+                    return lf
+        return {e["n"]: 1}
+    if k == "m":
+        p = T.path(e)
+        return {p: 1} if p else None
+    if k == "b" and e.get("o") in ("+", "-"):
+        l, r = linear_form(e.get("l"), fn, depth), linear_form(e.get("r"), fn, depth)
+        if l is None or r is None:
+            return None
+        out = dict(l)
+        for kk, v in r.items():
+            out[kk] = out.get(kk, 0) + (v if e["o"] == "+" else -v)
+        return {kk: v for kk, v in out.items() if v != 0 or kk == 1}
+    return None
+
+
+def loop_trip_count(fn, hb):
+    """linear form of the number of turns of the counting loop with head hb: `for (i = a; i < B; i++)` -> B - a,
+    `i <= B` -> B - a + 1 (None when the loop is not of that shape).  -> (induction variable, form)"""
+    cond = (fn.blocks[hb].get("t") or {}).get("c")
+    a0 = T.strip(cond) if isinstance(cond, dict) else None
+    if not (isinstance(a0, dict) and a0.get("k") == "b" and a0.get("o") in ("<", "<=", ">", ">=")):
+        return None
+    l_, r_, o_ = a0["l"], a0["r"], a0["o"]
+    if o_ in (">", ">="):
+        l_, r_, o_ = r_, l_, {">": "<", ">=": "<="}[o_]
+    iv = T.path(l_)
+    if iv is None or T.strip(l_).get("k") != "v":
+        return None
+    body = natural_loops(fn).get(hb, set())
+    steps = [n for n in fn.events("S") if n in body and T.path(n.ev["lhs"]) == iv]
+    if not steps or not all(n.ev.get("o") in ("++",) or (n.ev.get("o") == "+=" and T.const(n.ev.get("rhs")) == 1) for n in steps):
+        return None
+    inits = [n for n in fn.events("S") if n not in body and T.path(n.ev["lhs"]) == iv and n.ev.get("o") == "=" and
+             fn.block_end(hb) in fn.reach(fn.after(n), avoid=[m for m in fn.events("S") if m is not n and m not in body and T.path(m.ev["lhs"]) == iv])]
+    starts = {T.const(n.ev.get("rhs")) for n in inits}
+    if len(starts) != 1 or None in starts:
+        return None
+    b = linear_form(r_, fn)
+    if b is None:
+        return None
+    out = dict(b)
+    out[1] = out.get(1, 0) - starts.pop() + (1 if o_ == "<=" else 0)
+    return iv, {k: v for k, v in out.items() if v != 0 or k == 1}
